@@ -509,7 +509,9 @@ func init() {
 	// ------------------------------------------------------------------ C02
 	register("C02", func(c *engine.Ctx) {
 		c.Rule = "random structured schemas (tree fragment, plus formats) with schema-directed VALID documents (boundary values of every constraint, optional properties present or absent, null where allowed, nested objects and arrays), a third of the programs also generated with --min-sized-ints and bounds near the integer type limits; every document the reference calls valid must be accepted and every non-empty declared value must re-appear unchanged, at the same place, in json.Marshal of the decoded value. Near-duplicates: pairs of schema nodes whose Go type names collide (sibling properties, definitions, definition vs property, array items) and whose schemas differ in exactly one keyword (24 perturbations: format, type, each bound, required, enum members, items, default, nullable, annotation only, identical), both orders, documents valid for the one and for the other at both positions. The broad random stream (all features, mutated documents) additionally ties model and implementation. Distinct = distinct (stream, verdicts, document shape)."
-		c.Proofs([]string{"GJS.Props.C02", "GJS.Props.Whole", "GJS.Props.Exact", "GJS.Proofs.SpecMono", "GJS.Proofs.Mono", "GJS.Proofs.Stable", "GJS.Props.FlatGen", "GJS.Props.FlatExact"}, []string{
+		c.Proofs([]string{"GJS.Props.C02", "GJS.Props.Whole", "GJS.Props.Exact", "GJS.Proofs.SpecMono", "GJS.Proofs.Mono", "GJS.Proofs.Stable", "GJS.Props.FlatGen", "GJS.Props.FlatExact", "GJS.Props.TreeGen", "GJS.Props.TreeExact"}, []string{
+			"GJS.Props.Tree.run_tree", "GJS.Props.Tree.tree_end_to_end", "GJS.Props.Tree.tree_end_to_end_yaml", "GJS.Props.Tree.tree_end_to_end_checked", "GJS.Props.Tree.treeFullB_sound", "GJS.Props.Tree.certAll_tree", "GJS.Props.Tree.certCov_tree", "GJS.Props.Tree.declared_step", "GJS.Props.Tree.fieldsT",
+			"GJS.Props.Flat.flat_end_to_end_full", "GJS.Props.Flat.flat_end_to_end_full_checked", "GJS.Props.Flat.flatFullB_sound", "GJS.Props.Flat.run_flat_gen",
 			"GJS.Props.Flat.run_flat", "GJS.Props.Flat.flat_end_to_end", "GJS.Props.Flat.flat_end_to_end_yaml", "GJS.Props.Flat.flat_end_to_end_checked", "GJS.Props.Flat.flatPlainB_sound", "GJS.Props.Flat.certAll_root", "GJS.Props.Flat.certCov_root", "GJS.Props.Flat.fields_flat", "GJS.Props.Flat.loop_flat", "GJS.Props.Flat.declared_flat",
 			"GJS.Props.C02.certShape_accepts", "GJS.Props.C02.certified_exact_on_shape", "GJS.Props.C02.certFull_accepts", "GJS.Props.C02.certAll_accepts", "GJS.Props.C02.certSound", "GJS.Props.C02.certified_exact", "GJS.Spec.valid_mono", "GJS.Props.C02.valid_split", "GJS.Props.C02.num_check_iff", "GJS.Props.C02.str_check_iff", "GJS.Props.C02.arr_check_eq", "GJS.Props.C02.str_decode_passes", "GJS.Props.C02.arr_decode_passes", "GJS.Props.C02.decodeStruct_field", "GJS.Props.C02.num_decode_passes", "GJS.Props.C02.acc_map_iff",
 			"GJS.Proofs.decode_err_mono", "GJS.Proofs.decode_stable",
@@ -679,6 +681,88 @@ func init() {
 			docs = append(docs, onlyReq, M{})
 			pcs = append(pcs, baseCase("c02-valid", schema, docs, "flat-object"))
 		}
+		// TREES of objects with constrained scalar leaves and arrays of scalars, up to three levels: the fragment of
+		// `tree_end_to_end` (the evidence counts the programs the driver places inside it: `tree`, and `flatc` for one level)
+		for i := 0; i < c.N(60, 600); i++ {
+			var mkNode func(depth int) (sgen.M, M, []M)
+			mkNode = func(depth int) (sgen.M, M, []M) {
+				n := 1 + c.R.Intn(5)
+				perm := make([]int, len(flatNames)-1)
+				for k := range perm {
+					perm[k] = k
+				}
+				for k := len(perm) - 1; k > 0; k-- {
+					j := c.R.Intn(k + 1)
+					perm[k], perm[j] = perm[j], perm[k]
+				}
+				props, req, full := sgen.M{}, []any{}, M{}
+				var faults []M
+				for k := 0; k < n; k++ {
+					nm := flatNames[perm[k]]
+					isReq := c.R.Intn(2) == 0
+					if isReq {
+						req = append(req, nm)
+					}
+					switch kind := c.R.Intn(8); {
+					case kind == 0 && depth > 1:
+						sub, subFull, subFaults := mkNode(depth - 1)
+						props[nm], full[nm] = sub, subFull
+						for _, sf := range subFaults {
+							f := sgen.DeepCopy(full).(M)
+							f[nm] = sf
+							faults = append(faults, f)
+						}
+					case kind == 1:
+						props[nm], full[nm] = sgen.M{"type": "array", "items": sgen.M{"type": "integer"}, "minItems": 1, "maxItems": 3}, []any{1, 2}
+						faults = append(faults, M{nm: []any{}}, M{nm: []any{1, 2, 3, 4}}, M{nm: []any{"x"}})
+					case kind == 2:
+						props[nm], full[nm] = sgen.M{"type": "string", "minLength": 2, "maxLength": 5, "pattern": "^a"}, "abc"
+						faults = append(faults, M{nm: "a"}, M{nm: "abcdef"}, M{nm: "bcd"})
+					case kind == 3:
+						props[nm], full[nm] = sgen.M{"type": "integer", "minimum": -2, "exclusiveMaximum": 9}, 8
+						faults = append(faults, M{nm: -3}, M{nm: 9}, M{nm: "8"})
+					case kind == 4:
+						props[nm], full[nm] = sgen.M{"type": "number", "exclusiveMinimum": 0, "maximum": 2.5}, 2.5
+						faults = append(faults, M{nm: 0}, M{nm: 2.75})
+					case kind == 5:
+						props[nm], full[nm] = sgen.M{"type": "array", "items": sgen.M{"type": "string"}}, []any{"x", "y"}
+						faults = append(faults, M{nm: []any{1}})
+					default:
+						t := []string{"string", "integer", "number", "boolean"}[c.R.Intn(4)]
+						props[nm] = sgen.M{"type": t}
+						full[nm] = map[string]any{"string": "v", "integer": 7, "number": 1.5, "boolean": true}[t]
+					}
+				}
+				node := sgen.M{"type": "object", "properties": props}
+				if len(req) > 0 {
+					node["required"] = req
+				}
+				// single faults on top of the full document of this node, and every required key removed
+				var out []M
+				for _, f := range faults {
+					d := sgen.DeepCopy(full).(M)
+					for k, v := range f {
+						d[k] = v
+					}
+					out = append(out, d)
+				}
+				for _, r := range req {
+					d := sgen.DeepCopy(full).(M)
+					delete(d, r.(string))
+					out = append(out, d)
+				}
+				return node, full, out
+			}
+			schema, full, faults := mkNode(1 + i%3)
+			docs := []any{full}
+			for _, f := range faults {
+				docs = append(docs, f)
+			}
+			if len(docs) > 40 {
+				docs = docs[:40]
+			}
+			pcs = append(pcs, baseCase("c02-valid", schema, docs, "tree-of-objects", fmt.Sprintf("depth=%d", 1+i%3)))
+		}
 		// a member with a valid default AND a constraint its Go zero value violates: the documents that omit it (or give
 		// null) are valid and must be accepted — at the top, nested, and in array items
 		zeroHostile := map[string]sgen.M{
@@ -810,6 +894,8 @@ func init() {
 		certCount(c, res, "all")
 		certCount(c, res, "exact")
 		certCount(c, res, "flat")
+		certCount(c, res, "flatc")
+		certCount(c, res, "tree")
 		breaks(c, res, nil, fails > 0)
 		knownProgramFindings(c)
 	})
